@@ -84,7 +84,8 @@ class C18(C06):
             if commitlib.n_writes(op) > 0 and s["out"][0] == "ok" and now - t_flush > TEN and not durable:
                 return (f"op {j} {json.dumps(op, ensure_ascii=False)[:120]} was issued {(now - t_flush) / 1e6:.6f} s after the "
                         f"previous flush but is not durable when it returns")
-            if durable:
+            if durable or (op[0] == "bulk" and any(e[0] is not None for e in op[2])):
+                # (a flush inside a bulk insert with upserts cannot be seen from outside: assume one happened)
                 t_flush = now
         return None
 
